@@ -161,7 +161,7 @@ class Prop:
                    "the registry order read for the UNORDERED model input is tree._node_by_id.values(); only its multiset is compared",
                    "RuntimeWarning emitted for StopIteration signals is ignored (default warning filter, not 'error')"]
     manifest = dict(
-        text=("Machine-checked theorems (Coq 8.16, no axioms, 31 statements in coq/Properties/C06.v) about an executable model of "
+        text=("Machine-checked theorems (Coq 8.16, no axioms; every `Theorem` of coq/Properties/C06.v, counted by the runner) about an executable model of "
               "Node/Tree.iterator, Node/Tree.visit and call_traversal_cb.  For every tree, start node and add_self: each of the six ordered "
               "methods yields a permutation of the branch without repetition (UNORDERED/RANDOM: a permutation of the registry), add_self "
               "puts the start node first (last for post-order); the order of each method is characterised as a RELATION on node pairs "
@@ -173,7 +173,10 @@ class Prop:
               "skip sets and for arbitrary stateful callbacks; a stop signal or error at a call ends the traversal there: the calls "
               "are the prefix of the muted run up to and including that call and visit returns the carried value, for each of the 9 "
               "returned/raised stop shapes (StopTraversal, False, StopIteration; class or instance), all 16 raw shapes being normalised "
-              "as documented; for any callback whatsoever the calls are a duplicate-free subsequence of the iterator order.  Literal "
+              "as documented; for any callback whatsoever the calls are a duplicate-free subsequence of the iterator order.  Tree.visit "
+              "(the wrapper run by the check: system root, add_self=False) has the same statements against Tree.iterator: order, "
+              "skip, stop at the k-th call / at a node for every shape, returned value, arbitrary callbacks, and the root is never "
+              "handed to the callback.  Literal "
               "tables of the source (IterMethod values, the _iter_*/_visit_* handlers of Node, the revert/toggle flags of the level "
               "variants) are lifted on every run and must agree with the model (proof obligation).  The model is tied to /repo on every "
               "run by a correspondence check (vm_compute vs. the implementation on all forest shapes <=5 nodes (<=7 thorough), every "
@@ -184,7 +187,17 @@ class Prop:
               "generators/observation; node identity = allocation index.  The exact order of UNORDERED/RANDOM is not part of the property "
               "(compared as sorted multisets); random.shuffle is modelled as an arbitrary selection sequence.  Callbacks that mutate the "
               "tree during traversal are outside the model.  A callback returning any other value (True, 0, ...) makes visit raise "
-              "ValueError - modelled as it is (the docstring of call_traversal_cb says such values are ignored)."),
+              "ValueError - modelled as it is (the docstring of call_traversal_cb says such values are ignored).  Where the code is "
+              "narrower than the English statement the theorems follow the code and say so: visit() exists for pre-, post- and "
+              "level-order only (the other five methods raise NotImplementedError before any call: C06_visit_methods / "
+              "C06_tree_visit_methods); Node.iterator(UNORDERED / RANDOM_ORDER) raises NotImplementedError (only Tree.iterator has "
+              "them: C06_iterator_methods); a skip signal in post-order suppresses nothing (descendants were already called: "
+              "C06_post_order_ignores_skip).  Outside a pure value model and therefore checked by the harness oracle only, on every "
+              "case: traversals are read-only (child lists by identity, parent pointers, registry re-read after every call), two "
+              "live traversals of one tree are independent, memo pass-through, the RuntimeWarning, __iter__.  Input hypotheses "
+              "NoDup (ids f) and 'registry = node set' are checked per case (registry flag of run06 / reg_ok of the oracle; "
+              "C06_registry_ids_suffice bridges the id-level check to the node-level hypothesis); their preservation by mutators "
+              "is C01/C02's subject."),
         technique="Coq proof about an executable Gallina model + differential correspondence check (vm_compute) + Python oracle",
         design_ref="DESIGN.md section 6 (C06)",
     )
